@@ -7,8 +7,6 @@ from vlib import render as RR
 
 ID = "C13"
 PROP_FILE = "Props/C13.v"
-THEOREMS = ["C13_partition", "C13_disabled", "C13_try_as", "C13_try_as_other", "C13_method_names", "C13_snakify_digits",
-            "C13_nonvacuous"]
 RULE = ("enums with 0-8 variants x kinds x 0-3 tuple fields of pairwise distinct types x generics / lifetimes x identifiers with "
         "digits, acronyms and underscores (the generated method NAMES are taken from the model and called: a naming difference is a "
         "compile error) x disabled placement. Every sample value (default and non-default payloads) is run against EVERY generated "
